@@ -10,7 +10,7 @@
        Lines starting with '#' at the end are statistics.
 
    check <wf-file> ...      |   batch <file-with-one-wf-file-per-line>
-       T2: imports every `dump` block and runs the extracted wf_check.
+       T2: imports every `dump` block and runs the extracted wfd_check (wf_check + clause (vii)).
        WF <design.variant> <boundary> <what> nodes=<n> ok | FAIL <failed components> *)
 open C09_model
 
@@ -54,8 +54,8 @@ let str_oid = function None -> "-" | Some n -> string_of_int (int_of_n n)
 let print_graph oc (g : graph) =
   let nodes = List.sort (fun (a, _) (b, _) -> compare (int_of_n a) (int_of_n b)) g.g_nodes in
   List.iter (fun (id, nd) ->
-    Printf.fprintf oc "n %d g=%s r=%d i=%s o=%s c=%s\n" (int_of_n id) (str_oid nd.n_grp)
-      (if int_of_n nd.n_ref > 0 then 1 else 0)
+    Printf.fprintf oc "n %d g=%s r=%d t=%d i=%s o=%s c=%s\n" (int_of_n id) (str_oid nd.n_grp)
+      (if int_of_n nd.n_ref > 0 then 1 else 0) (int_of_n nd.n_role)
       (String.concat "," (List.map str_oport nd.n_ins))
       (String.concat ";" (List.map (fun o ->
          Printf.sprintf "%d.%d:%s" (int_of_n o.o_type.ct_kind) (int_of_n o.o_type.ct_width)
@@ -68,7 +68,7 @@ let print_graph oc (g : graph) =
   let clocks = List.sort (fun (a, _) (b, _) -> compare (int_of_n a) (int_of_n b)) g.g_clocks in
   List.iter (fun (id, l) ->
     let l = List.sort compare (List.map (fun (n, p) -> (int_of_n n, int_of_nat p)) l) in   (* a set: canonical order *)
-    Printf.fprintf oc "K %d m=%s\n" (int_of_n id)
+    Printf.fprintf oc "K %d d=%s,%s m=%s\n" (int_of_n id) (str_oid (clkdrv g id)) (str_oid (rstdrv g id))
       (String.concat "," (List.map (fun (n, p) -> Printf.sprintf "%d.%d" n p) l))) clocks
 
 (* ---------------------------------------------------------------------------------------- *)
@@ -99,6 +99,8 @@ let parse_op (w : string list) : op =
   | ["addref"; n] -> OAddRef (id_of n)
   | ["removeref"; n] -> ORemoveRef (id_of n)
   | ["destroy"; n] -> ODestroy (id_of n)
+  | ["createdrv"; w; grp] -> OCreateDriver (w = "c", oid_of grp)
+  | ["setdrv"; w; c; n] -> OSetDriver (w = "c", id_of c, id_of n)
   | _ -> failwith ("bad op: " ^ String.concat " " w)
 
 let replay infile outfile =
@@ -122,7 +124,7 @@ let replay infile outfile =
           bump (List.hd rest); if not ok then bump ("refused:" ^ List.hd rest);
           Printf.fprintf oc "op %s%s\n" (String.concat " " rest) (if ok then "" else " !throw");
           print_graph oc !g;
-          if not (inv_check !g) then (output_string oc "MODEL-INV-FALSE\n"; bump "model-inv-false");
+          if not (invd_check !g) then (output_string oc "MODEL-INV-FALSE\n"; bump "model-inv-false");
           output_string oc "end\n";
           skipping := true
       | "end" :: _ -> skipping := false
@@ -162,18 +164,19 @@ let parse_out s : outport =
       { o_type = { ct_kind = n_of_int kd; ct_width = n_of_int wd }; o_cons = List.map port_of (list_field ',' cs) }
 
 type acc = { mutable nodes : (n * node) list; mutable groups : (n * group) list; mutable clocks : (n * nport list) list;
-             mutable kinds : (int * string) list }
+             mutable drvs : (n * (n option * n option)) list; mutable kinds : (int * string) list }
 
 let finish (a : acc) : graph =
   let mx l = List.fold_left (fun m (k, _) -> let v = int_of_n k in if v >= dangling then m else max m (v + 1)) 0 l in
-  { g_nodes = List.rev a.nodes; g_groups = List.rev a.groups; g_clocks = List.rev a.clocks;
+  { g_nodes = List.rev a.nodes; g_groups = List.rev a.groups; g_clocks = List.rev a.clocks; g_drv = List.rev a.drvs;
     g_next = n_of_int (mx a.nodes); g_gnext = n_of_int (mx a.groups); g_cnext = n_of_int (mx a.clocks) }
 
 let diagnose (g : graph) (a : acc) : string =
   let parts = [ "ids", ids_check g; "edges-fwd", edges_fwd_check g; "edges-bwd", edges_bwd_check g;
                 "groups-fwd", groups_fwd_check g; "groups-bwd", groups_bwd_check g; "parents", parents_check g;
                 "clocks-fwd", clocks_fwd_check g; "clocks-bwd", clocks_bwd_check g; "types", types_check g;
-                "grouped", grouped_check g ] in
+                "grouped", grouped_check g; "drivers-fwd", drivers_fwd_check g; "drivers-bwd", drivers_bwd_check g;
+                "drivers-keys", keys_eqb (List.map fst g.g_drv) (List.map fst g.g_clocks) ] in
   let failed = List.filter (fun (_, b) -> not b) parts in
   let s = String.concat "," (List.map fst failed) in
   if List.mem_assoc "types" failed then
@@ -194,7 +197,7 @@ let check_file file =
       let line = input_line ic in
       let w = words line in
       match w with
-      | "dump" :: rest -> tag := String.concat " " rest; cur := Some { nodes = []; groups = []; clocks = []; kinds = [] }
+      | "dump" :: rest -> tag := String.concat " " rest; cur := Some { nodes = []; groups = []; clocks = []; drvs = []; kinds = [] }
       | "SKIP" :: _ -> Printf.printf "SKIPPED %s\n" line
       | "n" :: id :: rest ->
           (match !cur with None -> () | Some a ->
@@ -204,7 +207,8 @@ let check_file file =
                        n_grp = oid_of (field rest "g");
                        n_clks = List.map oid_of (list_field ',' (field rest "c"));
                        n_ref = n_of_int (int_of_string (field rest "r"));
-                       n_req = kind_req (kind_of_tag k) } in
+                       n_req = kind_req (kind_of_tag k);
+                       n_role = n_of_int (match field_opt rest "t" with Some t -> int_of_string t | None -> 0) } in
             a.kinds <- (int_of_string id, k) :: a.kinds;
             bump ("kind:" ^ (match String.index_opt k ':' with Some j -> String.sub k 0 j | None -> k));
             a.nodes <- (id_of id, nd) :: a.nodes)
@@ -213,11 +217,15 @@ let check_file file =
             a.groups <- (id_of id, { gr_parent = oid_of (field rest "p"); gr_nodes = List.map id_of (list_field ',' (field rest "m")) }) :: a.groups)
       | "K" :: id :: rest ->
           (match !cur with None -> () | Some a ->
-            a.clocks <- (id_of id, List.map port_of (list_field ',' (field rest "m"))) :: a.clocks)
+            a.clocks <- (id_of id, List.map port_of (list_field ',' (field rest "m"))) :: a.clocks;
+            let d = match field_opt rest "d" with
+              | Some d -> (match split ',' d with [x; y] -> (oid_of x, oid_of y) | _ -> failwith "bad d=")
+              | None -> (None, None) in
+            a.drvs <- (id_of id, d) :: a.drvs)
       | "end" :: _ ->
           (match !cur with None -> () | Some a ->
             let g = finish a in
-            let ok = wf_check g in
+            let ok = wfd_check g in
             bump "dumps";
             Printf.printf "WF %s nodes=%d %s\n" !tag (List.length g.g_nodes) (if ok then "ok" else "FAIL " ^ diagnose g a);
             cur := None)
